@@ -79,7 +79,8 @@ def run_case(idx, rng, tier, ctx):
         flags = {'io_in_kernel': rng.random() < 0.4, 'mixed_case': rng.random() < 0.3, 'overlap': True,
                  'long_expr': rng.random() < 0.4, 'kinds_module': rng.random() < 0.7,
                  'max_stmts': rng.choice([6, 12, 20]), 'double_not': idx % 16 == 5,
-                 'named_cycle_exit': False, 'associate_expr_complex': False}
+                 'named_cycle_exit': False, 'associate_expr_complex': False,
+                 'named_if': rng.random() < 0.5, 'quoted_strings': rng.random() < 0.5}
         case = ProgGen(rng, flags).generate()
         src = case.units
         origin = 'generated'
